@@ -11,22 +11,27 @@ os.makedirs(dst, exist_ok=True)
 for f in ("patch.diff", "demo.py", "notes.md", "confirm.log"):
     if os.path.exists(os.path.join(sd, f)):
         shutil.copy(os.path.join(sd, f), os.path.join(dst, f))
-if subprocess.run(["git", "-C", "/repo", "status", "--porcelain"], capture_output=True, text=True).stdout.strip():
-    sys.exit("/repo not clean")
-r = subprocess.run(["git", "-C", "/repo", "apply", os.path.join(dst, "patch.diff")])
+# EV_WT=<scratch worktree>: apply the change there and point the checks (and their subprocesses) at it with
+# VERIF_REPO / PYTHONPATH, so that /repo is never touched (used while background runs read /repo)
+TARGET = os.environ.get("EV_WT") or "/repo"
+if subprocess.run(["git", "-C", TARGET, "status", "--porcelain", "--untracked-files=no"], capture_output=True, text=True).stdout.strip():
+    sys.exit(TARGET + " not clean")
+r = subprocess.run(["git", "-C", TARGET, "apply", os.path.join(dst, "patch.diff")])
 if r.returncode != 0:
-    sys.exit("patch does not apply to /repo")
+    sys.exit("patch does not apply to " + TARGET)
+EXTRA = {"VERIF_REPO": TARGET, "PYTHONPATH": TARGET} if TARGET != "/repo" else {}
 results = {}
 try:
     for c in checks:
         t = time.time()
-        pr = subprocess.run(["/verif/check", c, "--tier", "quick"], capture_output=True, text=True, env=dict(os.environ, VERIF_EVIDENCE_DIR="/tmp/mutant-evidence"))
+        pr = subprocess.run(["/verif/check", c, "--tier", "quick"], capture_output=True, text=True, env=dict(os.environ, VERIF_EVIDENCE_DIR="/tmp/mutant-evidence", **EXTRA))
         kinds = re.findall(r"kind=(\S+)", pr.stdout)
         results[c] = {"exit": pr.returncode, "violation_kinds": sorted(set(kinds)), "wall_s": round(time.time() - t, 1),
                       "harness_error": "HARNESS-ERROR" in pr.stdout}
         print(name, c, results[c], flush=True)
 finally:
-    subprocess.run(["git", "-C", "/repo", "checkout", "--", "."])
+    subprocess.run(["git", "-C", TARGET, "checkout", "--", "."])
+    subprocess.run(["git", "-C", TARGET, "clean", "-fdq", "tealer"])
 meta_path = os.path.join(dst, "meta.json")
 meta = json.load(open(meta_path)) if os.path.exists(meta_path) else {}
 conf = open(os.path.join(dst, "confirm.log")).read() if os.path.exists(os.path.join(dst, "confirm.log")) else ""
@@ -42,5 +47,7 @@ meta.update({
     },
 })
 meta.setdefault("check_results", {}).update(results)
+meta["evaluated_on"] = "change applied to /repo, quick checks run, /repo restored" if TARGET == "/repo" else (
+    "change applied to the scratch worktree " + TARGET + " (a worktree of /repo's HEAD); quick checks run with VERIF_REPO/PYTHONPATH pointing at it")
 meta["detected_by"] = sorted(c for c, v in meta["check_results"].items() if v["exit"] == 1)
 json.dump(meta, open(meta_path, "w"), indent=1)
